@@ -336,6 +336,51 @@ func checkC06(c *Ctx) {
 			}
 		}
 	}
+	// two-digit label numbers: scripts with 25 inline texts and 13 inline movements each, some repeated
+	{
+		f := &File{}
+		for _, sn := range []string{"BigA", "BigB"} {
+			script := Top{K: "script", Name: sn}
+			for k := 0; k < 45; k++ {
+				content := fmt.Sprintf("%s says %d", sn, k)
+				if k%6 == 5 || k == 0 || k == 44 {
+					content = "shared line" // the same text several times (also 40 texts apart), also across the two scripts
+				}
+				if k%10 == 3 {
+					// long texts of equal length that agree in their first 70 characters
+					content = strings.Repeat("The quick brown fox. ", 4) + fmt.Sprintf("tail %02d of script %s", k, sn)
+				}
+				script.Body = append(script.Body, Stmt{K: "cmd", Toks: []string{fmt.Sprintf("%st%d", sn, k), "@inl0"}, Inl: []Inline{{Kind: "text", Parts: []string{content}, Type: []string{"", "", "ascii"}[k%3]}}})
+				if k%2 == 0 {
+					steps := []ListItem{{Name: "walk_up", Mul: fmt.Sprint(k/2 + 1)}, {Name: "face_left"}}
+					if k%8 == 6 {
+						steps = []ListItem{{Name: "walk_down"}}
+					}
+					switch k {
+					case 4:
+						steps = []ListItem{{Name: "face_up"}, {Name: "walk_up", Mul: "300"}} // 300 = 44 mod 256
+					case 12:
+						steps = []ListItem{{Name: "face_up"}, {Name: "walk_up", Mul: "44"}}
+					case 20, 36:
+						steps = []ListItem{{Name: "walk_left", Mul: "70"}, {Name: "walk_right", Mul: "3"}} // a long list, twice
+					case 28:
+						steps = []ListItem{{Name: "face_up"}, {Name: "walk_up", Mul: "556"}} // 556 = 44 mod 512 and mod 256
+					}
+					script.Body = append(script.Body, Stmt{K: "cmd", Toks: []string{fmt.Sprintf("%sm%d", sn, k), "1", ",", "@inl0"}, Inl: []Inline{{Kind: "moves", Steps: steps}}})
+				}
+			}
+			f.Tops = append(f.Tops, script)
+		}
+		src, _ := RenderFile(f, Style{R: r, Layout: 0})
+		o := Opts{Optimize: true}
+		res := Compile(src, o)
+		if res.Panic != "" || res.TimedOut {
+			c.Violate(Violation{What: "compiler panicked or hung on a well-formed file", Source: src, Opts: &o})
+		} else if e, err := hoistEvents("bigfile", f, res); err == nil {
+			evs = append(evs, e...)
+			files["bigfile"] = rec{src, o, res.Out + fmt.Sprint(res.Err), e}
+		}
+	}
 	// the exhaustive family of occurrence sequences (GenHoist.tla)
 	maxLen, every := 3, 1
 	if !c.Quick() {
